@@ -990,7 +990,7 @@ func c06Bounded(fe *formEval, v ssa.Value, R poly, depth int, nonNeg bool) bool 
 		name := ""
 		if b, ok := x.Call.Value.(*ssa.Builtin); ok {
 			name = b.Name()
-		} else if sc := x.Call.StaticCallee(); sc != nil && (sc.Name() == "min" || strings.HasPrefix(sc.Name(), "min[")) && isMinFunction(sc) {
+		} else if sc := x.Call.StaticCallee(); sc != nil && isMinFunction(sc) {
 			name = "min" // the module's own generic min
 		}
 		switch name {
